@@ -3,10 +3,11 @@
    size_in_bytes() of a model value x of type T is `FormatSpec.size ty_T (v_T x)` (equal to the
    number of bytes written: Props/C08, `ser_length`).  Rational constants are cleared
    (1.32 = 132/100 ...).  Pinned statements only; proofs are in Proofs/SizeForms.v (closed forms),
-   SizeBV.v, SizeR9.v, SizeDA.v, SizeEF.v. *)
-From Sucds Require Import Base.Res Spec.BitSpec Spec.FormatSpec gen.SerialGen
+   SizeBV.v, SizeR9.v (+ the per-level sums for DACs / wavelet layers), SizeDA.v, SizeEF.v (+ the
+   links to the constructors of SArray, PrefixSummedEliasFano, DacsByte, DacsOpt, WaveletMatrix). *)
+From Sucds Require Import Base.Res Spec.BitSpec Spec.DacSpec Spec.FormatSpec gen.SerialGen
   Model.BitVector Model.Rank9 Model.DArray Model.CompactVector Model.EliasFano Model.SArray Model.Psef
-  Model.Serial Proofs.BVAbs Proofs.CVRep Proofs.R9Main Proofs.EFBuilder
+  Model.Dacs Model.Wavelet Model.Serial Proofs.BVAbs Proofs.CVRep Proofs.R9Main Proofs.EFBuilder
   Proofs.SizeForms Proofs.SizeBV Proofs.SizeR9 Proofs.SizeDA Proofs.SizeEF.
 Open Scope N_scope.
 
@@ -98,24 +99,92 @@ Theorem C19_eliasfano_partial_builder_witness : ef_partial_witness = Some (8728,
 Proof. exact ef_partial_witness_eq. Qed.
 Print Assumptions C19_eliasfano_partial_builder_witness.
 
-(* SArray / PrefixSummedEliasFano: partial — proved for every value whose Elias-Fano part is the
-   value `ef_spec b _` of a completely filled builder; that the constructors sa_from_bv /
-   ps_from_slice produce such a value is not proved here *)
-Theorem C19_sarray_partial : forall u n b xs s, 1 <= n -> n + 2 + u / 2 ^ low_len_of u n < 2 ^ 56 ->
-  efb_inv b xs u n -> lenN xs = n -> sa_ef s = Some (ef_spec b (sa_has_rank s)) ->
-  8 * size ty_SArray (v_sarray s) <= n * low_len_of u n + (if sa_has_rank s then 11 else 7) * n + 8192.
-Proof. exact size_sarray_full. Qed.
-Print Assumptions C19_sarray_partial.
+(* any fill level, in the form evaluated by the driver (capacity recovered from the high vector) *)
+Theorem C19_eliasfano_driver_form : forall u m b acc rank, 1 <= m ->
+  m + 2 + u / 2 ^ low_len_of u m < 2 ^ 56 -> efb_inv b acc u m ->
+  let e := ef_spec b rank in
+  let cap := da_num_bits (ef_high e) - 2 - N.shiftr u (ef_low_len e) in
+  cap = m /\
+  8 * size ty_EliasFano (v_ef e)
+  <= lenN acc * ef_low_len e + (match da_s0 (ef_high e) with Some _ => 11 | None => 7 end) * cap + 8192.
+Proof. exact size_eliasfano_driver. Qed.
+Print Assumptions C19_eliasfano_driver_form.
+
+(* the two capacity side conditions hold whenever m <= u < 2^55 - 1 *)
+Theorem C19_ef_caps_small : forall u m, 1 <= m -> m <= u -> u + 1 < 2 ^ 55 ->
+  m + 2 + u / 2 ^ low_len_of u m < 2 ^ 56 /\ m * low_len_of u m < 2 ^ 56.
+Proof. exact ef_caps_small. Qed.
+Print Assumptions C19_ef_caps_small.
+
+(* EliasFano::from_bits over u bits with n ones (the builder is filled completely) *)
+Theorem C19_eliasfano_from_bits : forall bv u n, wf bv -> cap_ok bv ->
+  u = bv_len bv -> n = count true (bits_of bv) -> 1 <= n ->
+  n + 2 + u / 2 ^ low_len_of u n < 2 ^ 56 -> n * low_len_of u n < 2 ^ 56 ->
+  forall c e, ef_from_bits c bv = Ok (Some e) ->
+  ef_low_len e = low_len_of u n /\
+  8 * size ty_EliasFano (v_ef e) <= n * ef_low_len e + 7 * n + 8192.
+Proof. exact size_ef_from_bits. Qed.
+Print Assumptions C19_eliasfano_from_bits.
+
+(* SArray::from_bits (+ enable_rank) over u bits with n ones; all-zero vectors store no
+   Elias-Fano part (144 bits) *)
+Theorem C19_sarray : forall c bv (with_rank : bool) s, wf bv -> cap_ok bv ->
+  (1 <= count true (bits_of bv) ->
+   count true (bits_of bv) + 2 + bv_len bv / 2 ^ low_len_of (bv_len bv) (count true (bits_of bv)) < 2 ^ 56 /\
+   count true (bits_of bv) * low_len_of (bv_len bv) (count true (bits_of bv)) < 2 ^ 56) ->
+  (s0 <- sa_from_bv c bv ;; if with_rank then sa_enable_rank c s0 else Ok s0) = Ok s ->
+  let n := count true (bits_of bv) in
+  sa_has_rank s = with_rank /\
+  8 * size ty_SArray (v_sarray s)
+  <= n * low_len_of (bv_len bv) n + (if sa_has_rank s then 11 else 7) * n + 8192.
+Proof. exact size_sarray_built. Qed.
+Print Assumptions C19_sarray.
 
 Theorem C19_sarray_allzero : forall s, sa_ef s = None -> 8 * size ty_SArray (v_sarray s) = 144.
 Proof. exact size_sarray_none. Qed.
 Print Assumptions C19_sarray_allzero.
 
-Theorem C19_psef_partial : forall u n b xs p, 1 <= n -> n + 2 + u / 2 ^ low_len_of u n < 2 ^ 56 ->
-  efb_inv b xs u n -> lenN xs = n -> ps_ef p = ef_spec b false ->
-  8 * size ty_PrefixSummedEliasFano (v_psef p) <= n * low_len_of u n + 7 * n + 8192.
-Proof. exact size_psef_full. Qed.
-Print Assumptions C19_psef_partial.
+(* PrefixSummedEliasFano::from_slice: n values, universe u = sum + 1 *)
+Theorem C19_psef : forall c vals p,
+  sum_list vals + 1 < W ->
+  (lenN vals + 2 + (sum_list vals + 1) / 2 ^ low_len_of (sum_list vals + 1) (lenN vals) < 2 ^ 56 /\
+   lenN vals * low_len_of (sum_list vals + 1) (lenN vals) < 2 ^ 56) ->
+  ps_from_slice c vals = Ok (Some p) ->
+  ef_low_len (ps_ef p) = low_len_of (sum_list vals + 1) (lenN vals) /\
+  8 * size ty_PrefixSummedEliasFano (v_psef p)
+  <= lenN vals * ef_low_len (ps_ef p) + 7 * lenN vals + 8192.
+Proof. exact size_psef_built. Qed.
+Print Assumptions C19_psef.
+
+(* ---- DACs: per level 1.32 (chunk + flag bits stored on the level) + 2048, + 128 ---- *)
+Theorem C19_dacsbyte : forall c vals d, Forall (fun x => x < W) vals -> lenN vals < 2 ^ 50 ->
+  db_from_slice c vals = Ok d ->
+  let levels := combine (db_data d) (map Some (db_flags d) ++ [None]) in
+  let tot := fold_left (fun acc (lv : list N * option r9sel) =>
+               let chunk := 8 * lenN (fst lv) in
+               let flag := match snd lv with Some f => r9_num_bits f | None => 0 end in
+               acc + 132 * (chunk + flag) + 204800) levels 0 in
+  100 * (8 * size ty_DacsByte (v_dacsbyte d)) <= tot + 12800.
+Proof. exact size_dacsbyte_built. Qed.
+Print Assumptions C19_dacsbyte.
+
+Theorem C19_dacsopt : forall c vals mlo d, Forall (fun x => x < W) vals -> lenN vals < 2 ^ 50 ->
+  do_from_slice c vals mlo = Ok (Some d) ->
+  let levels := combine (do_data d) (map Some (do_flags d) ++ [None]) in
+  let tot := fold_left (fun acc (lv : compvec * option r9sel) =>
+               let chunk := cv_len (fst lv) * cv_width (fst lv) in
+               let flag := match snd lv with Some f => r9_num_bits f | None => 0 end in
+               acc + 132 * (chunk + flag) + 204800) levels 0 in
+  100 * (8 * size ty_DacsOpt (v_dacsopt d)) <= tot + 12800.
+Proof. exact size_dacsopt_built. Qed.
+Print Assumptions C19_dacsopt.
+
+(* ---- WaveletMatrix<Rank9Sel> over n symbols: B <= width (1.32 n + 2048) + 128 ---- *)
+Theorem C19_wavelet_rank9 : forall c xs wm, lenN xs < 2 ^ 56 -> wm_new c KRank9 xs = Ok (Some wm) ->
+  100 * (8 * size ty_WaveletMatrix_Rank9Sel (v_wavelet wm))
+  <= wm_alph_width wm * (132 * lenN xs + 204800) + 12800.
+Proof. exact size_wavelet_r9_built. Qed.
+Print Assumptions C19_wavelet_rank9.
 
 (* ---- concrete instances: both sides evaluated ---- *)
 Definition C19_cfg : cfg := {| dbg := true; intr := false |}.
@@ -173,4 +242,63 @@ Example C19_example_eliasfano :
     | _ => None end
   | _ => None end
   = Some (4, 4568, 13692, 5408, 15692).
+Proof. vm_compute. reflexivity. Qed.
+
+(* SArray with rank over 19200 bits with 200 ones: (n, floor(lg(u/n)), B, bound) *)
+Definition C19_sa_bv : bitvec :=
+  {| bv_words := map (fun i => if i mod 3 =? 0 then 2 ^ 17 + 1 else 0) (nseq 300); bv_len := 19200 |}.
+Example C19_example_sarray :
+  match (s0 <- sa_from_bv C19_cfg C19_sa_bv ;; sa_enable_rank C19_cfg s0) with
+  | Ok s => Some (sa_num_ones s, low_len_of (bv_len C19_sa_bv) (sa_num_ones s), 8 * size ty_SArray (v_sarray s),
+                  sa_num_ones s * low_len_of (bv_len C19_sa_bv) (sa_num_ones s) + 11 * sa_num_ones s + 8192)
+  | Panic => None end
+  = Some (200, 6, 3200, 11592).
+Proof. vm_compute. reflexivity. Qed.
+
+(* PrefixSummedEliasFano of 200 values: (low_len, B, bound) *)
+Example C19_example_psef :
+  match ps_from_slice C19_cfg (map (fun i => (i * i * 37) mod 5000) (nseq 200)) with
+  | Ok (Some p) => Some (ef_low_len (ps_ef p), 8 * size ty_PrefixSummedEliasFano (v_psef p),
+                         200 * ef_low_len (ps_ef p) + 7 * 200 + 8192)
+  | _ => None end
+  = Some (11, 3528, 11792).
+Proof. vm_compute. reflexivity. Qed.
+
+(* DACs over 400 values, 40 of them large: two levels.
+   DacsOpt: (widths, level lengths, 100 B, bound); DacsByte: (level lengths, 100 B, bound) *)
+Definition C19_dac_vals : list N :=
+  map (fun i => if i mod 10 =? 0 then (i * i * 37) mod 50000 else i mod 16) (nseq 400).
+Example C19_example_dacsopt :
+  match do_from_slice C19_cfg C19_dac_vals None with
+  | Ok (Some d) =>
+      let levels := combine (do_data d) (map Some (do_flags d) ++ [None]) in
+      let tot := fold_left (fun acc (lv : compvec * option r9sel) =>
+                   let chunk := cv_len (fst lv) * cv_width (fst lv) in
+                   let flag := match snd lv with Some f => r9_num_bits f | None => 0 end in
+                   acc + 132 * (chunk + flag) + 204800) levels 0 in
+      Some (map cv_width (do_data d), map cv_len (do_data d),
+            100 * (8 * size ty_DacsOpt (v_dacsopt d)), tot + 12800)
+  | _ => None end
+  = Some ([4; 12], [400; 39], 372800, 748176).
+Proof. vm_compute. reflexivity. Qed.
+Example C19_example_dacsbyte :
+  match db_from_slice C19_cfg C19_dac_vals with
+  | Ok d =>
+      let levels := combine (db_data d) (map Some (db_flags d) ++ [None]) in
+      let tot := fold_left (fun acc (lv : list N * option r9sel) =>
+                   let chunk := 8 * lenN (fst lv) in
+                   let flag := match snd lv with Some f => r9_num_bits f | None => 0 end in
+                   acc + 132 * (chunk + flag) + 204800) levels 0 in
+      Some (map lenN (db_data d), 100 * (8 * size ty_DacsByte (v_dacsbyte d)), tot + 12800)
+  | Panic => None end
+  = Some ([400; 39], 474400, 938784).
+Proof. vm_compute. reflexivity. Qed.
+
+(* WaveletMatrix<Rank9Sel> over 400 symbols below 5000: (width, 100 B, bound) *)
+Example C19_example_wavelet :
+  match wm_new C19_cfg KRank9 (map (fun i => (i * i * 37) mod 5000) (nseq 400)) with
+  | Ok (Some wm) => Some (wm_alph_width wm, 100 * (8 * size ty_WaveletMatrix_Rank9Sel (v_wavelet wm)),
+                          wm_alph_width wm * (132 * 400 + 204800) + 12800)
+  | _ => None end
+  = Some (13, 1614400, 3361600).
 Proof. vm_compute. reflexivity. Qed.
